@@ -235,11 +235,81 @@ def degPass (env : DegEnv) (blocks : List Block) : List Block × DegEnv × Bool 
       let (ss, env', c') := b.stmts.foldl step ([], setJoin blocks env b, false)
       (bs ++ [{ b with stmts := ss }], env', c')) ([], env, false)
 
-/-- the environment `propagate_degrees` starts from -/
+/-- `VariableName::without_version` -/
+def _root_.Circomspect.Ir.VName.base (v : VName) : VName := { v with version := none }
+
+/-- `is_constant_expression`: built from numbers, parameters of the template and the given variables (all versions of them) -/
+def constExpr (ps : List VName) (C : List VName) : Expr → Bool
+  | .num _ _ => true
+  | .var _ v => ps.contains v || C.contains v.base
+  | .infix _ _ l r => constExpr ps C l && constExpr ps C r
+  | .prefix _ _ e => constExpr ps C e
+  | .phi _ args => args.all (fun a => C.contains a.base)
+  | _ => false
+
+def isPhiE : Expr → Bool
+  | .phi _ _ => true
+  | _ => false
+
+/-- the condition that ends block `h` is a constant expression -/
+def condSimple (ps C : List VName) (blocks : List Block) (h : Nat) : Bool :=
+  match (blocks.getD h { stmts := [] }).stmts.getLast? with
+  | some (.ite cond) => constExpr ps C cond
+  | _ => false
+
+/-- all assignments (to any kind of variable): unversioned target, block index, the conditions of the block, the assigned expression -/
+def assignmentsOf (blocks : List Block) : List (VName × List Nat × Option VType × Expr) :=
+  blocks.flatMap (fun b => b.stmts.filterMap (fun s => match s with
+    | .sub _ v ty _ rhe => some (v.base, b.conds, ty, rhe)
+    | _ => none))
+
+/-- the assignment keeps its target among the constant variables: the expression is constant, and if it is a phi expression so is
+    every condition that chooses between its arguments -/
+def assignmentOk (ps C : List VName) (blocks : List Block) (a : VName × List Nat × Option VType × Expr) : Bool :=
+  constExpr ps C a.2.2.2 && !(isPhiE a.2.2.2 && a.2.1.any (fun h => !condSimple ps C blocks h))
+
+/-- one round of `get_constant_variables`: the variables all of whose assignments are still fine -/
+def constRound (ps : List VName) (blocks : List Block) (C : List VName) : List VName :=
+  C.filter (fun n => (assignmentsOf blocks).all (fun a => a.1 != n || assignmentOk ps C blocks a))
+
+def constIter (ps : List VName) (blocks : List Block) : Nat → List VName → List VName
+  | 0, C => C
+  | fuel + 1, C => let C' := constRound ps blocks C; if C'.length == C.length then C else constIter ps blocks fuel C'
+
+/-- the names declared as signals or components -/
+def nonLocalNames (blocks : List Block) : List VName :=
+  blocks.flatMap (fun b => b.stmts.flatMap (fun s => match s with
+    | .decl names ty _ => if ty != VType.local_ then names else []
+    | _ => []))
+
+/-- the set is closed: every assignment to one of its variables is fine (so a further round removes nothing), and none of them is
+    declared as a signal or component. The Rust loop stops exactly when a round removes nothing; the model re-checks the result, so
+    that the theorems about `degInit` need no statement about the iteration. -/
+def constClosed (ps : List VName) (blocks : List Block) (C : List VName) : Bool :=
+  (assignmentsOf blocks).all (fun a => !C.contains a.1 || assignmentOk ps C blocks a) &&
+  (nonLocalNames blocks).all (fun n => !C.contains n.base)
+
+/-- `get_constant_variables`: the versions (targets of assignments) of the local variables of a template that are constant by
+    construction (since the `fix:` for loop counters; nothing for a function, whose parameters need not be constant) -/
+def constVars (cfg : Cfg) : List VName :=
+  if cfg.isFunction then []
+  else
+    let cands := ((assignmentsOf cfg.blocks).filterMap (fun a => if a.2.2.1 == some VType.local_ then some a.1 else none)).eraseDups
+    let C := constIter cfg.params cfg.blocks (cands.length + 1) cands
+    if constClosed cfg.params cfg.blocks C then
+      (stmtTargets cfg.blocks).filter (fun v => C.contains v.base)
+    else []
+where
+  stmtTargets (blocks : List Block) : List VName :=
+    blocks.flatMap (fun b => b.stmts.filterMap (fun s => match s with | .sub _ v _ _ _ => some v | _ => none))
+
+/-- the environment `propagate_degrees` starts from: the parameters, and the variables that are constant by construction (a loop
+    counter depends on itself, so propagation never finds its degree) -/
 def degInit (cfg : Cfg) : DegEnv :=
-  cfg.params.foldl (fun env p =>
-    let env := env.setType p .local_
-    (env.setDegree p (if cfg.isFunction then (0, 1) else (0, 0))).1) { ranges := [], types := [], assigned := [] }
+  (constVars cfg).foldl (fun env v => (env.setDegree v (0, 0)).1)
+    (cfg.params.foldl (fun env p =>
+      let env := env.setType p .local_
+      (env.setDegree p (if cfg.isFunction then (0, 1) else (0, 0))).1) { ranges := [], types := [], assigned := [] })
 
 /-- the `while rerun` loop with a budget of `fuel` passes (the time box): returns the blocks
     after at most `fuel` passes and whether the fixpoint was reached -/
